@@ -251,6 +251,18 @@ def render_trait(t):
     return '\n'.join(lines), desc
 
 
+SCOPED = '''pub mod scoped {
+    use unimock::*;
+    pub fn real_scoped(_u: &Unimock, p0: i32) -> i32 { unimplemented!() }
+    pub fn scope() -> Unimock {
+        #[unimock(api=ScopedMock, unmock_with=[real_scoped])]
+        trait Scoped { fn m0(&self, p0: i32) -> i32; }
+        fn real_scoped(_u: &(impl Scoped + ?Sized), p0: i32) -> i32 { unimplemented!() }
+        Unimock::new(ScopedMock::m0.each_call(matching!(_)).applies_unmocked())
+    }
+}'''
+
+
 def main():
     out, repo, tier, seed = sys.argv[1], sys.argv[2], sys.argv[3], int(sys.argv[4])
     os.makedirs(os.path.join(out, 'src'), exist_ok=True)
@@ -264,6 +276,9 @@ def main():
         txt, d = render_trait(t)
         src.append(txt)
         descs.append(d)
+    # a trait declared inside a function body, its real function beside it, and a module-level function of the same name as a decoy:
+    # the path written in unmock_with must resolve where the attribute was written (block scope first)
+    src.append(SCOPED)
     import patterns
     ptxt, pdesc = patterns.generate(tier, seed)
     src.append(ptxt)
